@@ -174,12 +174,21 @@ PLANTS = [
 ]
 
 
+# failures whose error carries no span (the line comes from the line table via get_line)
+SPECIALS = [
+    ("required-block", ["{% extends 't1' %}", "a\nb\n@\nc"], ("{% block b required %}{% endblock %}", 3, 0)),
+    ("required-block-first-line", ["x\n{% extends 't1' %}", "@"], ("{% block b required %}{% endblock %}", 3, 0)),
+    ("required-block-multiline", ["{% extends 't1' %}", "a\n@\nc"], ("{% block b required %}\n\n{% endblock %}", 3, 0)),
+]
+
+
 def build_runtime_groups(chk):
     groups = []
     rng = chk.rng
-    for cname, tpls in CONSTRUCTS:
+    combos = [(cname, tpls, plant) for cname, tpls in CONSTRUCTS for plant in PLANTS] + SPECIALS
+    for cname, tpls, (ptext, pkind, poff) in combos:
         which = [i for i, t in enumerate(tpls) if "@" in t][0]
-        for pi, (ptext, pkind, poff) in enumerate(PLANTS):
+        for _once in (0,):
             t = tpls[which]
             at = t.index("@")
             pre, post = t[:at], t[at + 1:]
@@ -225,6 +234,28 @@ def build_runtime_groups(chk):
                 variants.append({"n": 0, "h": 0, "pb": 0, "hb": 0, "at": 0, "other": [oi, on, blen(PADS[0]) * on], "tpls": mk(0, "", "top", "", 0, (oi, on, PADS[0]))})
             groups.append({"family": "runtime", "construct": cname, "plant": ptext, "which": which, "pline": pline + poff, "pstart": pline, "pkind": pkind,
                            "variants": variants})
+    return groups
+
+
+FUEL_TPLS = [
+    ["{% import 't1' as lib %}\n\n{{ lib.m() }}", "{% macro m() %}\nx{{ 1 }}\n{% endmacro %}"],
+    ["{% from 't1' import m %}\n{{ m() }}", "\n{% macro m() %}\n{{ one }}\n{% endmacro %}"],
+    ["a\n{% from 't1' import m as q %}{{ q() }}", "{% macro m() %}z{% endmacro %}"],
+    ["{% extends 't1' %}\n{% block b %}\n{{ super() }}{{ one }}\n{% endblock %}", "p\n{% block b %}\n{{ s }}\n{% endblock %}\nq"],
+    ["a\n{% include 't1' %}\nb{% include ['nope', 't1'] ignore missing %}", "x\n{{ seq|join(',') }}\n"],
+    ["{% for x in seq %}\n  {{ loop.index }}{% if x == 2 %}{% continue %}{% endif %}\n{% else %}e{% endfor %}\n{% set v = [1, 2] %}{% with q = v[0] %}\n{{ q }}{% endwith %}"],
+    ["{% macro m(a, b=2) %}\n{{ a }}{{ b }}{{ caller() }}\n{% endmacro %}\n{% call m(1) %}c{% endcall %}\n{% filter upper %}f{% endfilter %}{% set cap %}\nx{% endset %}{% autoescape true %}{{ s }}{% endautoescape %}\n{% do seq|length %}"],
+    ["{% for x in [[1], [2]] recursive %}\n{% if x is iterable %}{{ loop(x) }}{% else %}\n{{ x }}{% endif %}{% endfor %}\n{{ {'a': 1}.a ~ (1 if one else 2) ~ seq[0:2] }}"],
+]
+
+
+def build_fuel_groups(chk):
+    groups = []
+    top = 90 if chk.thorough else 45
+    for ti, tpls in enumerate(FUEL_TPLS):
+        for k in range(1, top + 1):
+            groups.append({"family": "fuel", "construct": "fuel-tpl-%d" % ti, "plant": "fuel=%d" % (k - 1), "which": 0, "flags": k << 8,
+                           "variants": [{"n": 0, "h": 0, "pb": 0, "hb": 0, "at": 0, "tpls": [[(1, x)] for x in tpls]}]})
     return groups
 
 
@@ -421,7 +452,9 @@ def main():
         "harness built without the `unicode` feature (identifiers are ASCII), with `debug`",
     ]
     ok_models, blog = build_models("C14")
+    chk.notes["t_models_s"] = round(time.time() - chk.t0, 1)
     proofs_ok = chk.run_proofs()
+    chk.notes["t_proofs_s"] = round(time.time() - chk.t0, 1)
     okc, clog = cargo_build(["c14"], release=False)
     okr, clog2 = cargo_build(["c14"], release=True)
     if not (okc and okr):
@@ -437,20 +470,23 @@ def main():
             groups, tokcases, tabcases = [rp["group"]], [], []
         elif rp.get("case", [9])[0] == 1:
             groups, tokcases, tabcases = [], [rp["case"]], []
+        elif rp.get("case", [9])[0] == 3:
+            groups, tokcases, tabcases = [], [], []
         else:
             groups, tokcases, tabcases = [], [], [rp["case"]]
     else:
-        groups = build_syntax_groups(chk) + build_runtime_groups(chk)
+        groups = build_syntax_groups(chk) + build_runtime_groups(chk) + build_fuel_groups(chk)
         tabcases = build_table_cases(chk)
         tokcases = None
 
+    chk.notes["t_built_s"] = round(time.time() - chk.t0, 1)
     # ---- pipeline ----
     flat = []
     index = []
     for gi, g in enumerate(groups):
         for vi, v in enumerate(g["variants"]):
             index.append((gi, vi))
-            flat.append(case_pipe(v["tpls"]))
+            flat.append(case_pipe(v["tpls"], g.get("flags", 0)))
     raw = {}
     for rel in (False, True):
         raw[rel] = prun([bin_path("c14", rel)], flat)
@@ -475,6 +511,7 @@ def main():
         if fails:
             pipe_fail.append((gi, fails))
 
+    chk.notes["t_pipeline_s"] = round(time.time() - chk.t0, 1)
     # ---- tokenizer: every single-template source of the pipeline run, plus saturation cases ----
     if tokcases is None:
         tokcases = []
@@ -550,6 +587,51 @@ def main():
             if (e["line"], e["rs"], e["re"]) not in cands:
                 copy_fail.append((gi, vi, (e["line"], e["rs"], e["re"])))
 
+    chk.notes["t_tokenizer_s"] = round(time.time() - chk.t0, 1)
+    # ---- the locations compiled into the instruction tables (mode 3): every template of the run-time groups ----
+    stat_cases, stat_meta = [], []
+    if not chk.replay or groups:
+        seen3 = set()
+        for gi, g in enumerate(groups):
+            for vi, v in enumerate(g["variants"]):
+                if g["family"] == "syntax" and vi > 1:
+                    continue
+                if v["n"] > 300 or v["h"] > 300:
+                    continue
+                for ti, t in enumerate(v["tpls"]):
+                    c = [3, 0] + enc_src(t)
+                    if tuple(c) in seen3:
+                        continue
+                    seen3.add(tuple(c)); stat_cases.append(c); stat_meta.append((gi, vi, ti))
+    elif rp.get("case", [9])[0] == 3:
+        stat_cases, stat_meta = [rp["case"]], [(0, 0, 0)]
+    stat = {rel: prun([bin_path("c14", rel)], stat_cases) for rel in (False, True)}
+    stat_bad = []
+    stat_instr = 0
+    for i, c in enumerate(stat_cases):
+        for rel in (False, True):
+            o = stat[rel][i]
+            if not o or o[0] == 1:
+                continue
+            if o[0] != 0:
+                stat_bad.append((i, rel, "compiling panicked"))
+                continue
+            nl, n = o[1], o[2]
+            if rel is False:
+                stat_instr += n
+            for k in range(n):
+                ltag, line, stag, sl, so, eo, ok = o[3 + 7 * k: 10 + 7 * k]
+                # line 0 = "no line" (Error::line() maps it to None).  The BeginCapture/PushWith instructions of an
+                # {% import %} that is the first statement carry it; they cannot fail, so no returned error shows it.
+                if ltag == 1 and line != 0 and not (1 <= line <= nl):
+                    stat_bad.append((i, rel, "instruction %d: line %d outside the %d lines of the template" % (k, line, nl))); break
+                if stag == 1 and ok != 1:
+                    stat_bad.append((i, rel, "instruction %d: span %d..%d (line %d) is not a valid slice starting on that line" % (k, so, eo, sl))); break
+                if stag == 1 and (ltag != 1 or line != sl):
+                    stat_bad.append((i, rel, "instruction %d: line %s but its span starts on line %d" % (k, line if ltag else None, sl))); break
+        if stat[False][i] != stat[True][i]:
+            stat_bad.append((i, True, "debug and release builds compile different location tables"))
+
     # ---- tables ----
     tab = {"model": prun(model_cmd("c14"), tabcases), "spec": prun(model_cmd("c14-spec-tab"), tabcases), "impl": {}}
     for rel in (False, True):
@@ -562,6 +644,7 @@ def main():
             nontriv.add(tuple(c))
         hist["table_ops=%d" % (c[1] // 10 * 10)] += 1
 
+    chk.notes["t_tables_s"] = round(time.time() - chk.t0, 1)
     # ---- kernel cross-check of the extraction on small cases ----
     small = [c for c in tokcases if len(c) < 160][:: max(1, len(tokcases) // 25)][:25] + [c for c in tabcases if len(c) < 200][:15]
     kern_ok, kern_n = True, 0
@@ -573,20 +656,21 @@ def main():
 
     # ---- evidence ----
     nvar = len(flat)
-    chk.cov["evaluations"] = nvar * 4 + len(tokcases) * 2 + len(tabcases) * 2
+    chk.cov["evaluations"] = nvar * 4 + len(tokcases) * 2 + len(tabcases) * 2 + len(stat_cases) * 2
     chk.cov["distinct_nontrivial"] = len(nontriv)
     chk.cov["rule"] = ("pipeline: %d groups (a failing template + its N-line / H-column insertion variants), %d variants, each loaded+rendered in a debug and a release build "
                        "with env debug off and on and every error of the cause chain formatted 5 ways; tokenizer: %d sources through implementation (2 builds), extracted model and extracted spec; "
-                       "tables: %d op sequences, every index queried.  non-trivial = distinct variant of a group whose base template really fails (an error with a location was returned), "
+                       "tables: %d op sequences, every index queried; the line/span compiled for every instruction of every template (lines in range, spans valid, line = span start line).  non-trivial = distinct variant of a group whose base template really fails (an error with a location was returned), "
                        "distinct tokenizer source with more than one token, distinct table sequence of >= 3 operations" % (len(groups), nvar, len(tokcases), len(tabcases)))
     chk.cov["exhaustive"] = False
     chk.cov["distribution"] = dict(hist)
-    chk.cov["groups"] = {"syntax": sum(1 for g in groups if g["family"] == "syntax"), "runtime": sum(1 for g in groups if g["family"] == "runtime")}
+    chk.cov["groups"] = {f: sum(1 for g in groups if g["family"] == f) for f in ("syntax", "runtime", "fuel")}
     chk.cov["inserted_lines_tested"] = sorted({v["n"] for g in groups for v in g["variants"]})
     chk.cov["inserted_columns_tested"] = sorted({v["h"] for g in groups for v in g["variants"]})
     chk.cov["tokenizer"] = {"cases": len(tokcases), "outside_modelled_fragment": unsupported, "impl_vs_model_disagreements": len(tok_mism),
                             "spec_failures_on_impl_spans": len(tok_spec_fail)}
     chk.cov["tables"] = {"cases": len(tabcases), "impl_vs_model_disagreements": len(tab_mism), "impl_vs_spec": len(tab_bad), "model_vs_spec": len(tab_thm)}
+    chk.cov["compiled_tables"] = {"templates": len(stat_cases), "instructions_checked": stat_instr, "failures": len(stat_bad)}
     chk.cov["kernel_crosscheck"] = {"cases": kern_n, "agree": kern_ok}
     if groups:
         chk.cov["samples"] = [describe_group(groups[i], min(1, len(groups[i]["variants"]) - 1)) for i in (0, len(groups) // 2, len(groups) - 1)]
@@ -616,6 +700,9 @@ def main():
     for i, rel in tab_bad[:3]:
         chk.violation("get_line/get_span does not return the location in force for the instruction",
                       {"case": tabcases[i], "profile": "release" if rel else "debug", "implementation": tab["impl"][rel][i], "spec": tab["spec"][i]})
+    for i, rel, what in stat_bad[:3]:
+        chk.violation("compiled location table: " + what, {"case": stat_cases[i], "source": text_of_case(stat_cases[i]), "profile": "release" if rel else "debug",
+                                                           "how": "./check C14 --replay <this file>"})
     for gi, vi, l in copy_fail[:3]:
         chk.violation("a syntax error is located at a span the tokenizer never produced", {"group": groups[gi], "failing_variant": vi, "reported": l,
                       "describe": describe_group(groups[gi], vi)})
